@@ -46,7 +46,7 @@ PROPS = {
         ],
     },
     "C04": {
-        "theorems": ["SV.Props.C04.source_sender_limit_test_is_the_models", "SV.Props.C04.lists_equal_reference_after_any_history", "SV.Props.C04.hash_index_equals_reference_after_any_history", "SV.Props.C04.insert_is_ordered_insert", "SV.Props.C04.lists_sorted_add", "SV.Props.C04.lists_sorted_remove", "SV.Props.C04.sorted_has_no_duplicates", "SV.Props.C04.add_semantics", "SV.Props.C04.add_leaves_other_senders", "SV.Props.C04.remove_semantics", "SV.Props.C04.lookups_agree", "SV.Props.C04.trim_partial", "SV.Props.C04.trim_incomplete_F3", "SV.Props.C04.source_insertion_walk_is_the_models", "SV.Props.C04.source_lower_nonce_removal_is_the_models"],
+        "theorems": ["SV.Props.C04.source_sender_limit_test_is_the_models", "SV.Props.C04.lists_equal_reference_after_any_history", "SV.Props.C04.hash_index_equals_reference_after_any_history", "SV.Props.C04.insert_is_ordered_insert", "SV.Props.C04.lists_sorted_add", "SV.Props.C04.lists_sorted_remove", "SV.Props.C04.sorted_has_no_duplicates", "SV.Props.C04.add_semantics", "SV.Props.C04.add_leaves_other_senders", "SV.Props.C04.remove_semantics", "SV.Props.C04.lookups_agree", "SV.Props.C04.trim_partial", "SV.Props.C04.trim_incomplete_F3", "SV.Props.C04.source_insertion_walk_is_the_models", "SV.Props.C04.source_lower_nonce_removal_is_the_models", "SV.Props.C04.go_list_addTx_is_the_models", "SV.Props.C04.go_list_lower_nonce_removal_is_the_models", "SV.Props.C04.go_list_getTxs_is_the_list"],
         "modules": ["SV.Props.C04"],
         "runs": [{"component": "txcache", "thorough_seeds": 3, "compare_kinds": ["add", "rm", "clear"], "history_filter": "evict=0"}],
         "rule": "random add/rm/clear/sel histories over a small transaction alphabet (hash determines content) under boundary-biased configurations, plus directed eviction storms; distinct = distinct (operation kind, canonical output incl. full API dump) pairs observed on the implementation; the model/implementation diff is restricted per property (C01-C03: selections from the observed lists; C04-C06: add/rm/clear of the histories with eviction disabled - the pool-wide clauses of C05/C06 are decided on the eviction histories by the Go oracles, whose verdict does not depend on WHICH transactions eviction takes; C07: add/rm/clear of all histories)",
@@ -66,7 +66,7 @@ PROPS = {
         ],
     },
     "C06": {
-        "theorems": ["SV.Props.C06.holds_for_every_accepted_configuration", "SV.Props.C06.source_threshold_tests_are_the_models", "SV.Props.C06.source_sender_limit_test_is_the_models", "SV.Props.C06.sender_count_bound", "SV.Props.C06.sender_bytes_partial", "SV.Props.C06.eviction_postcondition", "SV.Props.C06.pool_bounds_after_add", "SV.Props.C06.no_pool_wide_drop_when_disabled", "SV.Props.C06.every_reachable_sender_list_bounded", "SV.Props.C06.pool_bounds_at_every_add_of_every_history", "SV.Props.C06.eviction_of_every_reachable_pool_ends_within", "SV.Props.C06.no_history_drops_pool_wide_when_disabled"],
+        "theorems": ["SV.Props.C06.holds_for_every_accepted_configuration", "SV.Props.C06.source_threshold_tests_are_the_models", "SV.Props.C06.source_sender_limit_test_is_the_models", "SV.Props.C06.sender_count_bound", "SV.Props.C06.sender_bytes_partial", "SV.Props.C06.eviction_postcondition", "SV.Props.C06.pool_bounds_after_add", "SV.Props.C06.no_pool_wide_drop_when_disabled", "SV.Props.C06.every_reachable_sender_list_bounded", "SV.Props.C06.pool_bounds_at_every_add_of_every_history", "SV.Props.C06.eviction_of_every_reachable_pool_ends_within", "SV.Props.C06.no_history_drops_pool_wide_when_disabled", "SV.Props.C06.go_list_trim_is_trim1", "SV.Props.C06.go_list_trim_removes_at_most_one_F3"],
         "modules": ["SV.Props.C06"],
         "runs": [{"component": "txcache", "thorough_seeds": 3, "compare_kinds": ["add", "rm", "clear"], "history_filter": "evict=0"}],
         "rule": "random add/rm/clear/sel histories over a small transaction alphabet (hash determines content) under boundary-biased configurations, plus directed eviction storms; distinct = distinct (operation kind, canonical output incl. full API dump) pairs observed on the implementation; the model/implementation diff is restricted per property (C01-C03: selections from the observed lists; C04-C06: add/rm/clear of the histories with eviction disabled - the pool-wide clauses of C05/C06 are decided on the eviction histories by the Go oracles, whose verdict does not depend on WHICH transactions eviction takes; C07: add/rm/clear of all histories)",
@@ -76,7 +76,7 @@ PROPS = {
         ],
     },
     "C07": {
-        "theorems": ["SV.Props.C07.source_threshold_tests_are_the_models", "SV.Props.C07.source_comparator_is_the_models", "SV.Props.C07.takes_least_valuable", "SV.Props.C07.batch_size", "SV.Props.C07.stops_when_within", "SV.Props.C07.noop_within_thresholds", "SV.Props.C07.loses_nonce_suffix", "SV.Props.C07.disappear_from_every_view", "SV.Props.C07.victim_independent_of_order", "SV.Props.C07.every_reachable_eviction_cuts_nonce_suffixes", "SV.Props.C07.every_reachable_eviction_noop_within", "SV.Props.C07.every_reachable_evicted_disappear_everywhere", "SV.Props.C07.every_reachable_survivor_stays_hashed", "SV.Props.C07.source_suffix_cut_is_the_models"],
+        "theorems": ["SV.Props.C07.source_threshold_tests_are_the_models", "SV.Props.C07.source_comparator_is_the_models", "SV.Props.C07.takes_least_valuable", "SV.Props.C07.batch_size", "SV.Props.C07.stops_when_within", "SV.Props.C07.noop_within_thresholds", "SV.Props.C07.loses_nonce_suffix", "SV.Props.C07.disappear_from_every_view", "SV.Props.C07.victim_independent_of_order", "SV.Props.C07.every_reachable_eviction_cuts_nonce_suffixes", "SV.Props.C07.every_reachable_eviction_noop_within", "SV.Props.C07.every_reachable_evicted_disappear_everywhere", "SV.Props.C07.every_reachable_survivor_stays_hashed", "SV.Props.C07.source_suffix_cut_is_the_models", "SV.Props.C07.go_list_suffix_cut_is_the_models"],
         "modules": ["SV.Props.C07"],
         "runs": [{"component": "txcache", "thorough_seeds": 3, "compare_kinds": ["add", "rm", "clear"]}],
         "rule": "random add/rm/clear/sel histories over a small transaction alphabet (hash determines content) under boundary-biased configurations, plus directed eviction storms; distinct = distinct (operation kind, canonical output incl. full API dump) pairs observed on the implementation; the model/implementation diff is restricted per property (C01-C03: selections from the observed lists; C04-C06: add/rm/clear of the histories with eviction disabled - the pool-wide clauses of C05/C06 are decided on the eviction histories by the Go oracles, whose verdict does not depend on WHICH transactions eviction takes; C07: add/rm/clear of all histories)",
